@@ -159,6 +159,12 @@ def run(chk, prog, tier):
     chk.coverage['summaries_validated'] = rep
     check_verify(chk, prog, env, model)
     check_generate(chk, prog, env, model)
+    # "every keyring item flagged as bad carries a non-empty message" and "header/claim calls return the code they store": shared rules
+    from props import c07, c15
+    chk.guard('keyring items', c07.check_item_contract, chk, prog, env, model)
+    chk.guard('setter codes', c15.check_setter, chk, prog, env, model)
+    chk.guard('getter codes', c15.check_getter, chk, prog, env, model)
+    chk.guard('dispatch codes', c15.check_dispatch, chk, prog, env, model)
     return chk.finish(
         'Path-sensitive abstract interpretation of jwt_checker_verify and jwt_builder_generate (all internal callees '
         'inlined, both crypto providers resolved from their ops-table initialisers, user callback modelled as an '
